@@ -1035,3 +1035,143 @@ def file_text_untranslated(ctx, rep, rule):
 EXTRA["C16"].append((macro_descent_memoised, "C16.24"))
 EXTRA["C02"].append((macro_descent_memoised, "C02.11"))
 EXTRA["C02"].append((file_text_untranslated, "C02.12"))
+
+
+def prebuilt_unknown_refused(ctx, rep, rule):
+    ix = ctx.ix
+    V = "jaqalpaq.core.circuitbuilder.RebuildMacroInContextVisitor"
+    vg = _method(ix, V, "visit_GateStatement")
+    gd = _method(ix, "jaqalpaq.core.circuitbuilder.Builder", "get_gate_definition")
+    rep.rule(rule, "a statement built ahead of its circuit whose gate name the circuit does not know is refused when made-up gates are not allowed (the relinker raises in its `unknown name` branch, keyed on a marker that get_gate_definition puts on the definitions it makes up)", floor=1)
+    cons = construct_of(vg, "unknown-name")
+    unk = [st for st in iter_stmts(vg.body) if isinstance(st, ast.If) and _none_test_name(st.test, "gate_def") is False]
+    if not unk:
+        rep.undecided(rule, cons, "no `gate_def is None` branch", vg.loc())
+        return
+    st = unk[0]
+    raises = [r for r in ast.walk(st) if isinstance(r, ast.Raise)]
+    if not raises:
+        rep.violation(rule, cons, "a gate name the circuit does not know is kept as it is: `b.loop(2, block_calling_Foo)` and a macro body built by `b.macro(..)` may call gates that do not exist, a macro may call itself or a macro defined later -- the same call written in the body is refused (`No gate Foo defined`)", f"{vg.path}:{st.lineno}", witness="CircuitBuilder(native_gates=ng).loop(2, block with Foo r[0])")
+        return
+    marks = {c.args[1].value for c in ast.walk(st) if isinstance(c, ast.Call) and isinstance(c.func, ast.Name) and c.func.id == "getattr" and len(c.args) >= 2 and isinstance(c.args[1], ast.Constant)} | {a.attr for a in ast.walk(st.body[0].test) if isinstance(a, ast.Attribute)} if isinstance(st.body[0], ast.If) else set()
+    set_marks = {t.attr for a in ast.walk(gd.node) if isinstance(a, ast.Assign) for t in a.targets if isinstance(t, ast.Attribute)}
+    if marks & set_marks:
+        rep.ok(rule, cons, f"raises for definitions marked `{sorted(marks & set_marks)[0]}` when made-up gates are not allowed", f"{vg.path}:{st.lineno}")
+    else:
+        rep.violation(rule, cons, f"the refusal is keyed on {sorted(marks) or 'nothing'}, which get_gate_definition never sets: it cannot fire (or fires for real definitions the circuit does not hold by name)", f"{vg.path}:{st.lineno}")
+
+
+def relative_name_fully_used(ctx, rep, rule):
+    ix = ctx.ix
+    f = _func(ix, "jaqalpaq._import._jaqal_import_module_relative")
+    rep.rule(rule, "every component of a relative pulse-module name takes part in finding the module (`from .pkg.sub usepulses *` must not be answered with the gates of `.pkg`)", floor=1)
+    n = 0
+    for st in iter_stmts(f.body):
+        if isinstance(st, ast.Assign) and isinstance(st.targets[0], ast.Tuple):
+            for e in st.targets[0].elts:
+                if isinstance(e, ast.Starred) and isinstance(e.value, ast.Name):
+                    n += 1
+                    rest = e.value.id
+                    cons = construct_of(f, f"ignored-components:{rest}")
+                    used = any(isinstance(x, ast.Name) and x.id == rest and isinstance(x.ctx, ast.Load) for x in ast.walk(f.node))
+                    if used:
+                        rep.ok(rule, cons, "the remaining components are used", f"{f.path}:{st.lineno}")
+                    else:
+                        rep.violation(rule, cons, f"`{ast.unparse(st)}`: the components after the first are never looked at: for `.labgates.v2` the package `labgates` is loaded and filed under the name `labgates.v2`; jaqal_import then falls back on `labgates.jaqal_gates` when an earlier parse left it in sys.modules (programs are checked and emulated with the wrong gate set) and raises ModuleNotFoundError otherwise", f"{f.path}:{st.lineno}", witness="from .labgates usepulses * ; then from .labgates.v2 usepulses *")
+    if n == 0:
+        rep.ok(rule, construct_of(f, "components"), "the name is not split into a first component and a rest")
+
+
+def qsyntax_conversions_guarded(ctx, rep, rule):
+    ix = ctx.ix
+    vi = _func(ix, "jaqalpaq.qsyntax.qsyntax.validate_int")
+    rep.rule(rule, "Q-syntax converts a user-given index or size under a handler for TypeError, ValueError and OverflowError (None, a register, NaN, infinity), and looks registers and lets up only after a membership test: the failure is a JaqalError", floor=2)
+    cons = construct_of(vi, "int-conversion")
+    convs = [c for c in ast.walk(vi.node) if isinstance(c, ast.Call) and isinstance(c.func, ast.Name) and c.func.id == "int"]
+    if not convs:
+        rep.undecided(rule, cons, "no int() conversion", vi.loc())
+    for c in convs:
+        need = {"TypeError", "ValueError", "OverflowError"}
+        got = set()
+        for t in ast.walk(vi.node):
+            if isinstance(t, ast.Try) and any(x is c for b in t.body for x in ast.walk(b)):
+                for h in t.handlers:
+                    if h.type is None:
+                        got |= need
+                    else:
+                        got |= {x.id for x in ast.walk(h.type) if isinstance(x, ast.Name)}
+        if "Exception" in got or need <= got:
+            rep.ok(rule, cons, "converted under a handler", f"{vi.path}:{c.lineno}")
+        else:
+            rep.violation(rule, cons, f"`{ast.unparse(c)}` can raise {sorted(need - got)}: `Q.Px(r[None])`, `r[float('nan')]`, `r[float('inf')]` fail with that exception instead of JaqalError", f"{vi.path}:{c.lineno}")
+    lo = next((f for f in ix.functions.values() if f.module == "jaqalpaq.qsyntax.qsyntax" and f.name == "lookup_object"), None)
+    if lo is None:
+        rep.undecided(rule, "qsyntax.qsyntax:lookup_object", "helper not found")
+        return
+    for s_ in ast.walk(lo.node):
+        if isinstance(s_, ast.Subscript) and isinstance(s_.ctx, ast.Load) and isinstance(s_.value, ast.Name) and s_.value.id.endswith("_dict"):
+            cons = construct_of(lo, f"lookup:{s_.value.id}")
+            tests = [t for t in ast.walk(lo.node) if isinstance(t, ast.Compare) and isinstance(t.ops[0], (ast.In, ast.NotIn)) and isinstance(t.comparators[0], ast.Name) and t.comparators[0].id == s_.value.id]
+            tried = any(isinstance(t, ast.Try) and any(x is s_ for b in t.body for x in ast.walk(b)) for t in ast.walk(lo.node))
+            if tests or tried:
+                rep.ok(rule, cons, "membership is tested first", f"{lo.path}:{s_.lineno}")
+            else:
+                rep.violation(rule, cons, f"`{ast.unparse(s_)}` raises KeyError for a register or let object that belongs to another circuit", f"{lo.path}:{s_.lineno}")
+
+
+EXTRA["C14"].append((prebuilt_unknown_refused, "C14.13"))
+EXTRA["C14"].append((relative_name_fully_used, "C14.14"))
+EXTRA["C16"].append((qsyntax_conversions_guarded, "C16.25"))
+EXTRA["C17"] = [(prebuilt_unknown_refused, "C17.9")]
+
+
+def egg_search_total(ctx, rep, rule):
+    ix = ctx.ix
+    f = _func(ix, "jaqalpaq._import._jaqal_probe_spec_relative")
+    rep.rule(rule, "the egg search of the relative import converts what it cannot handle: a version that does not parse is skipped (or converted), and zipimporter gets a string", floor=2)
+    for c in ast.walk(f.node):
+        if isinstance(c, ast.Call) and isinstance(c.func, ast.Attribute) and c.func.attr == "parse" and "version" in ast.unparse(c.func.value):
+            cons = construct_of(f, "version-parse")
+            guarded = any(isinstance(t, ast.Try) and any(x is c for b in t.body for x in ast.walk(b)) and any(h.type is None or {"ValueError", "Exception", "InvalidVersion"} & {x.id if isinstance(x, ast.Name) else x.attr for x in ast.walk(h.type) if isinstance(x, (ast.Name, ast.Attribute))} for h in t.handlers) for t in ast.walk(f.node))
+            if guarded:
+                rep.ok(rule, cons, "under a handler for ValueError", f"{f.path}:{c.lineno}")
+            else:
+                rep.violation(rule, cons, f"`{ast.unparse(c)}`: a file `<mod>-latest-py3.egg` in the import path makes `from .<mod> usepulses *` fail with packaging's InvalidVersion (a ValueError) instead of ImportError", f"{f.path}:{c.lineno}")
+        if isinstance(c, ast.Call) and isinstance(c.func, ast.Name) and c.func.id == "zipimporter" and c.args:
+            cons = construct_of(f, "zipimporter-argument")
+            a = c.args[0]
+            if isinstance(a, ast.Call) and isinstance(a.func, ast.Name) and a.func.id in ("str", "fspath") or (isinstance(a, ast.Call) and ast.unparse(a.func) == "os.fspath"):
+                rep.ok(rule, cons, "a string", f"{f.path}:{c.lineno}")
+            elif isinstance(a, ast.BinOp) and isinstance(a.op, ast.Div):
+                rep.violation(rule, cons, f"`{ast.unparse(c)}` hands zipimporter a Path: TypeError (expected str) for every well-formed egg", f"{f.path}:{c.lineno}")
+            else:
+                rep.undecided(rule, cons, f"`{ast.unparse(a)}`", f"{f.path}:{c.lineno}")
+
+
+def float_parameter_range(ctx, rep, rule):
+    ix = ctx.ix
+    v = _method(ix, "jaqalpaq.core.parameter.Parameter", "validate")
+    rep.rule(rule, "a float parameter accepts an integer only if it can be represented as a float (tested under a handler for OverflowError)", floor=1)
+    cons = construct_of(v, "float-range")
+    val = v.params[1]
+    branch = None
+    for st in ast.walk(v.node):
+        if isinstance(st, ast.If) and isinstance(st.test, ast.Compare) and "FLOAT" in ast.unparse(st.test.comparators[0]) and ".kind" in ast.unparse(st.test.left) and isinstance(st.test.ops[0], ast.Eq):
+            branch = st
+    if branch is None:
+        rep.undecided(rule, cons, "FLOAT branch not found", v.loc())
+        return
+    accepts_int = any(isinstance(c, ast.Call) and isinstance(c.func, ast.Name) and c.func.id == "isinstance" and "int" in ast.unparse(c.args[1]) for b in branch.body for c in ast.walk(b))
+    conv = [c for b in branch.body for c in ast.walk(b) if isinstance(c, ast.Call) and isinstance(c.func, ast.Name) and c.func.id == "float" and c.args and isinstance(c.args[0], ast.Name) and c.args[0].id == val]
+    guarded = any(isinstance(t, ast.Try) and any(x is c for bb in t.body for x in ast.walk(bb)) and any(h.type is None or {"OverflowError", "ArithmeticError", "Exception"} & {x.id for x in ast.walk(h.type) if isinstance(x, ast.Name)} for h in t.handlers) for b in branch.body for t in ast.walk(b) for c in conv)
+    if not accepts_int:
+        rep.ok(rule, cons, "integers are not accepted as floats", f"{v.path}:{branch.lineno}")
+    elif conv and guarded:
+        rep.ok(rule, cons, "float(value) under `except OverflowError`", f"{v.path}:{branch.lineno}")
+    else:
+        rep.violation(rule, cons, "any integer is accepted for a float parameter: `Rz r[0] 1000..0` (310 digits; longer than a float can hold, shorter than the literal limit) parses and then fails with OverflowError inside the gate's unitary", f"{v.path}:{branch.lineno}", witness="Rz r[0] 1" + "0" * 20 + "...")
+
+
+EXTRA["C16"].append((egg_search_total, "C16.26"))
+EXTRA["C16"].append((float_parameter_range, "C16.27"))
+EXTRA["C18"].append((float_parameter_range, "C18.14"))
